@@ -68,6 +68,9 @@ rt_leaf!(c02_rt_dbus_u, false, u32, Signature::U32, |a, b| a == b);
 rt_leaf!(c02_rt_dbus_x, false, i64, Signature::I64, |a, b| a == b);
 rt_leaf!(c02_rt_dbus_t, false, u64, Signature::U64, |a, b| a == b);
 rt_leaf!(c02_rt_dbus_d, false, f64, Signature::F64, |a, b| a.to_bits() == b.to_bits());
+// Rust types without a D-Bus type of their own: f32 travels as DOUBLE, i8 as INT16
+rt_leaf!(c02_rt_dbus_f32, false, f32, Signature::F64, |a, b| if a.is_nan() { b.is_nan() } else { a.to_bits() == b.to_bits() });
+rt_leaf!(c02_rt_dbus_i8, false, i8, Signature::I16, |a, b| a == b);
 
 #[cfg(feature = "gvariant")]
 mod gv {
